@@ -10,7 +10,6 @@ from typing import TYPE_CHECKING
 from numpy import array, concatenate, zeros
 
 # Local Imports
-from ...physics.maths import fpe_equals
 from ...physics.transforms.methods import ntw2eci
 from .continuous_state_change_event import ContinuousStateChangeEvent
 from .event_stack import EventRecord, EventStack
@@ -115,6 +114,11 @@ class ScheduledFiniteThrust(ContinuousStateChangeEvent, metaclass=ABCMeta):
         self.start_time = start_time
         self.end_time = end_time
         self.agent_id = agent_id
+        self._thrusting = False
+
+    def reset(self):
+        """Mark the thrust as off; called whenever a propagation is set up."""
+        self._thrusting = False
 
     def __call__(self, time: ScenarioTime, state: ndarray):
         """When this function returns zero during integration, it interrupts the integration process.
@@ -122,11 +126,8 @@ class ScheduledFiniteThrust(ContinuousStateChangeEvent, metaclass=ABCMeta):
         See Also:
             :meth:`.ContinuousStateChangeEvent.__call__()`
         """
-        _ival = self.start_time - time
-        _fval = self.end_time - time
-        if fpe_equals(_ival, 0.0) or fpe_equals(_fval, 0.0):
-            return 0.0
-        return _ival
+        # One root per phase: the start time while waiting, the end time while thrusting
+        return (self.end_time if self._thrusting else self.start_time) - time
 
     def __eq__(self, other: ScheduledFiniteThrust):
         """Check for equality between maneuver events.
@@ -157,9 +158,11 @@ class ScheduledFiniteThrust(ContinuousStateChangeEvent, metaclass=ABCMeta):
         See Also:
             :meth:`.ContinuousStateChangeEvent.getStateChangeCallback()`
         """
-        if fpe_equals(self.end_time - time, 0.0):
+        if self._thrusting:
+            self._thrusting = False
             EventStack.pushEvent(EventRecord(f"Finite thrust ended at {time}", self.agent_id))
             return None
+        self._thrusting = True
         EventStack.pushEvent(EventRecord(f"Finite thrust at {time}", self.agent_id))
         return self.thrust_func
 
